@@ -574,6 +574,34 @@ func ruleC12ExecCallers(c *Ctx) {
 		for root.Parent() != nil {
 			root = root.Parent()
 		}
+		// a helper the rule tables do not know stands for the enumerated function it was split from: its only static
+		// caller chain must end in an enumerated site
+		for hops := 0; hops < 3 && isUnknownHelper(root); hops++ {
+			var callers []*ssa.Function
+			for _, g := range c.P.ModFuncs {
+				allInstrs(g, func(_ *ssa.BasicBlock, gin ssa.Instruction) {
+					if ci, ok := gin.(ssa.CallInstruction); ok && ci.Common().StaticCallee() == root {
+						gr := g
+						for gr.Parent() != nil {
+							gr = gr.Parent()
+						}
+						dup := false
+						for _, x := range callers {
+							if x == gr {
+								dup = true
+							}
+						}
+						if !dup {
+							callers = append(callers, gr)
+						}
+					}
+				})
+			}
+			if len(callers) != 1 {
+				break
+			}
+			root = callers[0]
+		}
 		allInstrs(f, func(_ *ssa.BasicBlock, in ssa.Instruction) {
 			ci, ok := in.(ssa.CallInstruction)
 			if !ok || ci.Common().StaticCallee() != exec {
